@@ -987,8 +987,22 @@ func runShutdown(s shutScn) (sig, msg string) {
 	if serr == nil {
 		// nil: no connection remains, whenever it was accepted. When Shutdown gives up at its deadline, a
 		// connection whose accept was still in flight at that moment may be left (the caller has been told
-		// that the shutdown is incomplete).
-		mustBeClosed = append(mustBeClosed, late...)
+		// that the shutdown is incomplete). A late client counts only when it was this server that accepted
+		// it: its connect may have completed after the listener was gone, on a port that somebody else on this
+		// machine (the other shards run the same workloads) had been given in the meantime.
+		mu.Lock()
+		ours := map[string]bool{}
+		for _, sc := range conns {
+			if ra := sc.RemoteAddr(); ra != nil {
+				ours[ra.String()] = true
+			}
+		}
+		mu.Unlock()
+		for _, c := range late {
+			if ours[c.LocalAddr().String()] {
+				mustBeClosed = append(mustBeClosed, c)
+			}
+		}
 	}
 	for i, c := range mustBeClosed {
 		c.SetReadDeadline(time.Now().Add(10 * time.Second))
@@ -998,13 +1012,19 @@ func runShutdown(s shutScn) (sig, msg string) {
 			return "idle-not-closed", fmt.Sprintf("idle connection %d was not closed by Shutdown", i)
 		}
 	}
-	// accepting has stopped
+	// accepting has stopped: a connection made now does not reach this server's callbacks
+	mu.Lock()
+	before := len(conns)
+	mu.Unlock()
 	if c, err := dial(); err == nil {
-		c.SetReadDeadline(time.Now().Add(2 * time.Second))
-		_, rerr := c.Read(make([]byte, 1))
+		c.SetReadDeadline(time.Now().Add(300 * time.Millisecond))
+		c.Read(make([]byte, 1))
 		c.Close()
-		if ne, ok := rerr.(net.Error); ok && ne.Timeout() {
-			return "still-accepting", "a client could connect and stay connected after Shutdown"
+		mu.Lock()
+		after := len(conns)
+		mu.Unlock()
+		if after > before {
+			return "still-accepting", "a client that connected after Shutdown had returned was accepted by the server (OnPrepare ran)"
 		}
 	}
 	return "", ""
